@@ -214,6 +214,10 @@ def gen_job(seed, profile="general"):
         extra = [e for e in extra if e["type"] in ("PointLoad", "SolidBodyGravity", "SolidBodyForce", "MultiPointConstraint", "MultiPointContact")]
     if mesh.get("extra_point") and not any(e["type"].startswith("MultiPoint") for e in extra):
         mesh.pop("extra_point")
+    if not mesh.get("extra_point") and r.random() < 0.08 and fkind != "Mixed3":
+        # a point that belongs to no cell, strictly inside the bounding box (its unknowns are
+        # prescribed automatically)
+        mesh["orphan_point"] = [round(c * f, 4) for c, f in zip(mesh["b"], (0.37, 0.41, 0.53))]
     items.extend(extra)
     if case == "custom":
         lst = [{"name": "fix", "fx": "min", "value": 0.0}]
